@@ -461,5 +461,7 @@ func runC09(c *rt.Ctx) {
 	}
 	date.MaxInputLength = 10
 	c.Require("decorated-valid-text", 1500)
+	date.MaxInputLength = 10
+	guardedInputs(c, "C09", "date", []string{"2021-03-04", "20210304", "0000-01-01", "9999-12-31", "2000-02-29", "2021-02-30", "2021-3-4", "2021-03-0", "x", "2021-03-04x", "99999-01-01", "\x01\x00\x00\x07\xe5\x03\x04", "1", "12", "123", "1234", "12345", "123456", "1234567", "12345678", "123456789"})
 	c.Require("single-byte-substitution", 100000)
 }
